@@ -26,6 +26,7 @@ func checkC02(c *Ctx) {
 		return
 	}
 	c.Clauses = append(c.Clauses,
+		"C02.keylen: every sign.Scheme implementation's UnmarshalBinaryPublicKey / UnmarshalBinaryPrivateKey rejects over-long and empty encodings (sibling cross-check over all implementers)",
 		"C02.len: every verification entry point rejects an over-long and an empty signature (and byte-slice public key) on all paths",
 		"C02.guard: acceptance is impossible when the range check / point decoding / recompute-and-compare / component verification fails",
 		"C02.ctx: contexts longer than 255 bytes (and the empty context for Ed25519ctx) never reach acceptance",
@@ -63,6 +64,12 @@ func checkC02(c *Ctx) {
 		for _, n := range impls {
 			f := p.method(n, "Verify")
 			c.lenReject(p, "C02.len", f, "#3", false)
+			// sibling cross-check: every scheme's key decoders accept only the exact encoded length
+			for _, m := range []string{"UnmarshalBinaryPublicKey", "UnmarshalBinaryPrivateKey"} {
+				if g := p.method(n, m); g != nil && g.Synthetic == "" {
+					c.lenReject(p, "C02.keylen", g, "#1", true)
+				}
+			}
 		}
 	}
 
